@@ -209,8 +209,8 @@ def run(tier, seed):
         os.remove(tr)
     ck.extra["storage_class_combinations_per_routine"] = combos
     ck.exhaustive = True
-    ck.rule = ("random histories (3-9 MatrixTools calls) on a heap of RowMatrix/ColMatrix/LinearMatrix<double> objects, shapes 0x0 and "
-               "1..7 x 1..7, integer and dyadic entries, storage classes of every operand and output cycled through all combinations, "
+    ck.rule = ("random histories (3-9 MatrixTools calls) on a heap of RowMatrix/ColMatrix/LinearMatrix<double> objects, shapes 0x0, "
+               "1..7 x 1..7 and degenerate r x 0 / 0 x c, integer and dyadic entries, storage classes of every operand and output cycled through all combinations, "
                "outputs stale / wrongly sized / sentinel-filled, conformable and near-miss shapes; linear assignment on every cost "
                "matrix over {0,1,2} up to 3x3 (quick: every 9th 3x3) and random integer/dyadic costs up to 7x7; "
                "storage classes: histories of constructors / converting copies / operator= / clone / resize / resize(r,c,false) / "
@@ -220,7 +220,8 @@ def run(tier, seed):
     ck.distinct = ck.traces
     ck.assumptions = ["TLC 1.8.0; CommunityModules Json", "harness/drv_matrix.cpp reads results only through Matrix::operator()/getNumberOfRows/Columns",
                       "entries are exact in double arithmetic (small integers / dyadic rationals); every value stays below 2^31",
-                      "r x 0 and 0 x c shapes are not generated (the storage classes cannot represent them consistently)"]
+                      "r x 0 / 0 x c operands are created only in a storage class that can report them; a degenerate result is compared "
+                      "with what the output's class reports for it (AsHeld)"]
     cleanup_tlc_droppings(["MatrixOps", "MatLemmas", "Lap", "MatrixStore"])
     return ck.finish()
 
